@@ -97,6 +97,32 @@ func VC11_WriteTrace() {
 	vsym.Reach("end")
 }
 
+// VC11_WriteSequence: two writes through one EFIFS: the second write's open mode and buffer depend
+// on its own variable and value only (no state carried over from the first write).
+func VC11_WriteSequence() {
+	efs, rec := vNewFS()
+	v1, _ := vSymVar()
+	v2, wantPath2 := vSymVar()
+	val1, val2 := vsym.Bytes("value1", vsymC11Value), vsym.Bytes("value2", vsymC11Value)
+	vsym.Assert(efs.WriteVar(v1, vValue(val1)) == nil, "first write succeeds")
+	vsym.Assert(efs.WriteVar(v2, vValue(val2)) == nil, "second write succeeds")
+	var ops []vOp
+	for _, o := range rec.trace {
+		if o.op != "Close" {
+			ops = append(ops, o)
+		}
+	}
+	vsym.Assert(len(ops) == 4, "one open and one write per variable write")
+	vsym.Assert(ops[2].op == "OpenFile", "the file is opened with OpenFile")
+	vsym.AssertBytesEq([]byte(ops[2].path), wantPath2, "second path is that of the second variable")
+	wantFlags := os.O_WRONLY | os.O_CREATE
+	wantFlags = vsym.IteInt(v2.Attributes&attributes.EFI_VARIABLE_APPEND_WRITE != 0, wantFlags|os.O_APPEND, wantFlags)
+	vsym.Assert(ops[2].flag == wantFlags, "write-only, create, append iff the second variable's APPEND_WRITE")
+	a := uint32(v2.Attributes)
+	vsym.AssertBytesEq(ops[3].buf, append([]byte{byte(a), byte(a >> 8), byte(a >> 16), byte(a >> 24)}, val2...), "second buffer is its attributes followed by its value")
+	vsym.Reach("end")
+}
+
 // VC11_Read: stored file = symbolic bytes; required attributes symbolic.
 func VC11_Read() {
 	efs, rec := vNewFS()
